@@ -16,3 +16,5 @@ if [ ! -x "$V/bin/python" ] || ! "$V/bin/python" -c "import z3, cvc5, numpy, per
 fi
 "$V/bin/python" -c "import z3, cvc5, numpy, scipy, sklearn, persim, deal, hypothesis, jsonschema, mpmath; print('verif venv ok: z3', z3.get_version_string(), 'numpy', numpy.__version__, 'persim from', persim.__file__)"
 mkdir -p .work evidence replay
+# smoke run of the CPython cross-check of the VC generator's Python/NumPy models (concrete mode vs the real functions)
+PYTHONWARNINGS=ignore "$V/bin/python" selftest/crosscheck.py 2 2>/dev/null | tail -1 || echo "cross-check reported disagreements (see selftest/crosscheck.py)"
